@@ -343,11 +343,71 @@ def _amp_table():
         return (f"/-- SKIPPED ({e}) -/\ndef {name} : C16E.AmpTable := C16E.ampTable\n"), {name: f"skipped: {e}"}
 
 
+def _clip_form():
+    """how `clip_grad_norm_` is applied to the optimised modules: ONE call over the union of all parameters (global norm),
+    one call per module, or the main model only"""
+    name = "clipForm"
+    try:
+        fn = find_function(parse_file(REPO / E), "Engine.training_loop")
+        loop = _main_loop(fn)
+        env = [(n.lineno, n.targets[0].id, n.value) for n in ast.walk(loop)
+               if isinstance(n, ast.Assign) and len(n.targets) == 1 and isinstance(n.targets[0], ast.Name)]
+        found = []
+
+        def walk(stmts, fors):
+            for st in stmts:
+                if isinstance(st, ast.For):
+                    walk(st.body, fors + [st])
+                    walk(st.orelse, fors)
+                elif isinstance(st, (ast.If, ast.While)):
+                    walk(st.body, fors)
+                    walk(st.orelse, fors)
+                elif isinstance(st, ast.Try):
+                    walk(st.body, fors)
+                elif isinstance(st, ast.With):
+                    walk(st.body, fors)
+                else:
+                    for c in ast.walk(st):
+                        if isinstance(c, ast.Call) and (_norm(c.func).endswith("clip_grad_norm_")
+                                                        or _norm(c.func).endswith("clip_grad_value_")):
+                            found.append((c, fors))
+        walk(loop.body, [])
+        if len(found) != 1 or not found[0][0].args:
+            raise Untranslatable(f"expected exactly one clip_grad_norm_ call in the loop body, found {len(found)}")
+        call, fors = found[0]
+        arg, line = call.args[0], call.lineno
+        for _ in range(4):      # resolve names through the closest preceding assignment
+            if isinstance(arg, ast.Name):
+                prev = [(ln, v) for (ln, name, v) in env if name == arg.id and ln < line]
+                if not prev:
+                    break
+                line, arg = max(prev, key=lambda x: x[0])
+        t = _norm(arg)
+        if fors:
+            it = _norm(fors[-1].iter)
+            var = _norm(fors[-1].target)
+            if "self.models" in it and t.startswith(var + "."):
+                form = ".perModule"
+            else:
+                raise Untranslatable(f"clip_grad_norm_ inside `for {var} in {it}`")
+        elif "self.models" in t and "self.model" in t.replace("self.models", ""):
+            form = ".oneCallUnion"
+        elif t in ("self.model.parameters()", "list(self.model.parameters())"):
+            form = ".mainOnly"
+        else:
+            raise Untranslatable(f"cannot tell whose parameters `{ast.unparse(arg)}` are")
+        return (f"/-- translated from `{E}`:`Engine.training_loop`: how clip_grad_norm_ is applied to the optimised modules -/\n"
+                f"def {name} : C16E.ClipForm := {form}\n"), {name: "translated"}
+    except Untranslatable as e:
+        return (f"/-- SKIPPED ({e}) -/\ndef {name} : C16E.ClipForm := C16E.clipForm\n"), {name: f"skipped: {e}"}
+
+
 def events_extra():
     t1, s1 = _between_table()
     t2, s2 = _loop_calls()
     t3, s3 = _amp_table()
-    return t1 + "\n" + t2 + "\n" + t3, {**s1, **s2, **s3}
+    t4, s4 = _clip_form()
+    return t1 + "\n" + t2 + "\n" + t3 + "\n" + t4, {**s1, **s2, **s3, **s4}
 
 
 # --------------------------------------------------------------------------------------------------
